@@ -115,6 +115,8 @@ Record iconf := mkIconf {
   lex_shared : bool;          (* Lark.lex uses self.lexer (built with parser=None); otherwise it builds a new
                                  BasicLexer on every call *)
   lex_conf : Conf;            (* configuration of that new BasicLexer *)
+  lexall_conf : Conf;         (* ... and of the one built by lex(text, dont_ignore=True): a private copy of the
+                                 configuration whose ignore list is emptied; the instance's own is not touched *)
   can_scan : bool }.          (* parser='lalr' with a built-in lexer *)
 
 Definition pl_feed (pl : option icfg) (st : istate) (t : tok) : list ystep * istate * option istatus :=
@@ -239,6 +241,7 @@ Fixpoint scan_loop (fuel pfuel : nat) (cf : iconf) (wantm : nat -> bool) (s : in
 Inductive op :=
 | OParse (text : Text) (want : list tok -> bool)         (* Lark.parse; want = the parser's demand *)
 | OLex (text : Text) (want : list tok -> bool)           (* Lark.lex, consumed as far as want says *)
+| OLexAll (text : Text) (want : list tok -> bool)        (* Lark.lex(text, dont_ignore=True) *)
 | OInteractive (text : Text) (want : list tok -> bool)   (* parse_interactive + iter_parse/exhaust_lexer *)
 | OScan (text : Text) (wantm : nat -> bool)              (* Lark.scan; wantm j = resumed after j matches *)
 | OOther.                                                (* another Lark instance is created and used *)
@@ -252,9 +255,12 @@ Inductive obs :=
 (* Lark.lex on an instance that has a parser: `lexer = self._build_lexer(dont_ignore)` - a new
    BasicLexer whose cells die with the call; the post-lexer object is the shared one *)
 Definition lex_private_cf (cf : iconf) : iconf :=
-  mkIconf (fun _ => lex_conf cf) (fun _ => 0) None (postlex cf) false (lex_conf cf) false.
+  mkIconf (fun _ => lex_conf cf) (fun _ => 0) None (postlex cf) false (lex_conf cf) (lexall_conf cf) false.
 Definition lex_shared_cf (cf : iconf) : iconf :=
-  mkIconf (lexconf cf) (fun _ => 0) None (postlex cf) true (lex_conf cf) false.
+  mkIconf (lexconf cf) (fun _ => 0) None (postlex cf) true (lex_conf cf) (lexall_conf cf) false.
+(* dont_ignore=True always builds a new BasicLexer, also on an instance built with parser=None *)
+Definition lex_all_cf (cf : iconf) : iconf :=
+  mkIconf (fun _ => lexall_conf cf) (fun _ => 0) None (postlex cf) false (lex_conf cf) (lexall_conf cf) false.
 
 Definition run_op (fuel : nat) (cf : iconf) (s : inst) (o : op) : inst * obs :=
   match o with
@@ -274,6 +280,11 @@ Definition run_op (fuel : nat) (cf : iconf) (s : inst) (o : op) : inst * obs :=
         let '(p', (acc, e)) := pull_stream fuel (lex_private_cf cf) want (mkInst (fun _ => cell0) (ind s0))
                                            (init_ls text 0) in
         (mkInst (cells s0) (ind p'), ObsStream acc e)
+  | OLexAll text want =>
+      let s0 := open_stream cf s in
+      let '(p', (acc, e)) := pull_stream fuel (lex_all_cf cf) want (mkInst (fun _ => cell0) (ind s0))
+                                         (init_ls text 0) in
+      (mkInst (cells s0) (ind p'), ObsStream acc e)
   | OScan text wantm =>
       match postlex cf with
       | Some _ => (s, ObsConfigError)            (* raised by ParsingFrontend.scan before the generator exists *)
@@ -381,6 +392,8 @@ Definition op_pure (fuel : nat) (cf : iconf) (o : op) : obs :=
   | OLex text want =>
       let '(acc, e) := pull_pure fuel (if lex_shared cf then lex_shared_cf cf else lex_private_cf cf) want
                                  (init_ls text 0) in ObsStream acc e
+  | OLexAll text want =>
+      let '(acc, e) := pull_pure fuel (lex_all_cf cf) want (init_ls text 0) in ObsStream acc e
   | OScan text wantm =>
       match postlex cf with
       | Some _ => ObsConfigError
